@@ -16,6 +16,7 @@ case "$1" in
   C05) run python3-vt checks/c05.py ;;
   C06) run python3-vt checks/c06.py ;;
   C07) run python3-vt checks/c07.py ;;
+  C08) run python3-vt checks/c08.py ;;
   C09) run python3-vt checks/c09.py ;;
   C10) run python3-vt checks/c10.py ;;
   C15) run python3-vt checks/c15.py ;;
